@@ -21,7 +21,7 @@ def name_pool(rng, uni=True, big=True):
 
 
 # ------------------------------------------------------------------------------------------
-def volumes(tier="quick"):
+def volumes(tier="quick", high=False):
     """list of (label, thunk -> (image bytes, meta))"""
     v = []
 
@@ -42,7 +42,8 @@ def volumes(tier="quick"):
     v.append(("mkfs16-8500", mk(16, 8500 * 512)))
     v.append(("build32-tiny", bd(32, clusters=300, spc=1)))
     v.append(("build16-4100", bd(16, clusters=4100, spc=1, rootent=64)))
-    v.append(("build32-high", bd(32, clusters=66000, spc=1, fatfill={c: 0x0FFFFFF7 for c in range(3, 0x10008)})))   # first free cluster > 0xFFFF
+    if tier == "thorough" or high:
+        v.append(("build32-high", bd(32, clusters=66000, spc=1, fatfill={c: 0x0FFFFFF7 for c in range(3, 0x10008)})))   # first free cluster > 0xFFFF
     v.append(("build12-full-fat", bd(12, clusters=339, rootent=16)))      # FAT exactly 1 sector, 341 entries
     v.append(("build12-fat2sec", bd(12, clusters=680, rootent=16)))       # 2-sector FAT (last-entry case)
     if tier == "thorough":
